@@ -265,7 +265,12 @@ def run(ctx, out, tier):
                     if re.search(r"HashSet::contains\(supported_extensions", txt) and ".1" in txt:
                         neg = e[0] == "un" and e[1] == "Not"
                         if (neg and 0 not in vals) or (not neg and vals == {0}):
-                            found = True
+                            if util.arm_only_err(ctx, av, br, vals):
+                                found = True
+                            else:
+                                out.viol("C16.validate", "C16.validate|weakened", ctx.where(av, s["span"]),
+                                         "a -E mapping onto an unsupported grammar is rejected only under a further condition")
+                                found = True
         if found:
             v += 1
         else:
